@@ -1,9 +1,11 @@
 package main
 
 import (
+	"bytes"
 	"context"
 	"encoding/json"
 	"fmt"
+	"io"
 
 	"github.com/opencontainers/go-digest"
 	ocispec "github.com/opencontainers/image-spec/specs-go/v1"
@@ -98,4 +100,21 @@ func (m *mockRepo) manifestJSON(d digest.Digest) ([]byte, bool) {
 		}
 	}
 	return nil, false
+}
+
+// mockFetchRepo is the same instrumented repository that ALSO implements oras content.Fetcher (an optional capability
+// SignOCI may discover with a type assertion): Fetch delivers the artifact's manifest bytes.
+type mockFetchRepo struct {
+	*mockRepo
+	digest  digest.Digest
+	content []byte
+	fetches int
+}
+
+func (m *mockFetchRepo) Fetch(_ context.Context, target ocispec.Descriptor) (io.ReadCloser, error) {
+	m.fetches++
+	if target.Digest != m.digest {
+		return nil, fmt.Errorf("mock: no content %s", target.Digest)
+	}
+	return io.NopCloser(bytes.NewReader(m.content)), nil
 }
